@@ -2,6 +2,75 @@ import ChiaModel.Model.Generator
 import ChiaModel.Props.C07
 import ChiaModel.Props.C11
 /-
-C08 — theorems that carry this property are listed in bin/props.py; the statements specific to the
-generator-path models that are still open are recorded there under `open`.
+C08 — what the mempool validated is what the block yields.
 -/
+namespace ChiaModel.C08
+open ChiaModel ChiaModel.Gn
+
+theorem serialize_ofList_length (l : List Sexp) (term : Sexp) :
+    (Sexp.serialize (Sexp.ofList l term)).length = (l.map (fun x => 1 + (Sexp.serialize x).length)).sum + (Sexp.serialize term).length := by
+  induction l with
+  | nil => simp [Sexp.ofList]
+  | cons a t ih =>
+    simp only [Sexp.ofList, List.foldr_cons, Sexp.serialize, List.length_cons, List.length_append, List.map_cons, List.sum_cons] at ih ⊢
+    rw [ih]; omega
+
+theorem serAtom_len32 (b : Bytes) (h : b.length = 32) : (Sexp.serAtom b).length = 33 := by
+  rw [C11.serAtom_len_short b (by omega) (by omega), h]
+
+theorem serialize_nil : (Sexp.serialize Sexp.nil).length = 1 := by decide
+
+/-- a coin spend as it occurs in a spend bundle: 32-byte parent id, u64 amount, reveals serialised plainly -/
+def WF (s : CoinSpendM) : Prop :=
+  s.parent.length = 32 ∧ s.amount < 2^64 ∧ s.puzzleLen = (Sexp.serialize s.puzzle).length ∧ s.solutionLen = (Sexp.serialize s.solution).length
+
+theorem item_length (s : CoinSpendM) (h : WF s) :
+    1 + (Sexp.serialize (Sexp.ofList [.atom s.parent, s.puzzle, .atom (canonNat s.amount), s.solution])).length
+      = Gen.genLenPerSpend + s.puzzleLen + Gen.clvmBytesLen s.amount + s.solutionLen := by
+  obtain ⟨h1, h2, h3, h4⟩ := h
+  rw [serialize_ofList_length]
+  simp only [List.map_cons, List.map_nil, List.sum_cons, List.sum_nil, Sexp.serialize, serAtom_len32 _ h1, serialize_nil]
+  have := C11.clvmBytesLen_ok s.amount h2
+  simp only [Sexp.serialize] at this
+  rw [h3, h4, this]
+  have : Gen.genLenPerSpend = 39 := by decide
+  rw [this]
+  show 1 + (1 + 33 + (1 + _ + (1 + _ + (1 + _ + 0))) + (Sexp.serAtom []).length) = _
+  have : (Sexp.serAtom []).length = 1 := by decide
+  rw [this]; omega
+
+/-- **The predicted generator length is the actual serialised length**, for every spend bundle whose
+reveals are plainly serialised (any number of spends, any amounts). -/
+theorem generator_length (css : List CoinSpendM) (h : ∀ s ∈ css, WF s) :
+    calculateGeneratorLength css = (Sexp.serialize (buildGenerator css)).length := by
+  simp only [calculateGeneratorLength, buildGenerator, Sexp.serialize, List.length_cons, List.length_append]
+  rw [serialize_ofList_length]
+  have hb : Gen.genLenBase = 5 := by decide
+  have h1 : (Sexp.serAtom [1]).length = 1 := by decide
+  rw [hb, h1, serialize_nil]
+  have hsum : ((css.map (fun s => Sexp.ofList [.atom s.parent, s.puzzle, .atom (canonNat s.amount), s.solution])).reverse.map
+      (fun x => 1 + (Sexp.serialize x).length)).sum
+      = (css.map (fun s => Gen.genLenPerSpend + s.puzzleLen + Gen.clvmBytesLen s.amount + s.solutionLen)).sum := by
+    rw [List.map_reverse, List.sum_reverse, List.map_map]
+    congr 1
+    apply List.map_congr_left
+    intro s hs
+    exact item_length s (h s hs)
+  rw [hsum]
+  show _ = _ + 1 + (_ + 1 + 1) 
+  omega
+
+
+/-- **Fixed quote-wrapper overhead of the size cost.**  In byte-cost mode the block path's base cost on
+the generator built from a bundle exceeds the bundle path's base cost by exactly two bytes' worth
+(the `(q . …)` wrapper), for every well-formed bundle. -/
+theorem base_cost_offset (css : List CoinSpendM) (h : ∀ s ∈ css, WF s) (cpb : Nat) :
+    (Sexp.serialize (buildGenerator css)).length * cpb = (calculateGeneratorLength css - QUOTE_BYTES) * cpb + 2 * cpb := by
+  rw [← generator_length css h]
+  have : calculateGeneratorLength css ≥ 5 := by
+    simp only [calculateGeneratorLength]; have : Gen.genLenBase = 5 := by decide
+    omega
+  simp only [QUOTE_BYTES]
+  rw [← Nat.add_mul]; congr 1; omega
+
+end ChiaModel.C08
